@@ -505,5 +505,31 @@ func main() {
 			h.Section("login-record-lengths", 1)
 		}
 	}
+	// the same with multi-byte characters: the slot holds 30 BYTES, so a field of at most 30
+	// characters can still be oversized. Byte lengths 24..36, reached with 2-, 3- and 4-byte
+	// characters at the end, at the start, and throughout.
+	for _, wide := range []string{"ü", "日", "😀"} {
+		for l := 24; l <= 36; l++ {
+			var fills []string
+			if l >= len(wide) {
+				fills = append(fills, rep("field-", l-len(wide))+wide, wide+rep("field-", l-len(wide)))
+			}
+			if l%len(wide) == 0 {
+				fills = append(fills, strings.Repeat(wide, l/len(wide)))
+			}
+			for _, fill := range fills {
+				for f := 0; f < 4; f++ {
+					names := [4]string{"sa", "client-host", "my-application", "plain-pw"}
+					names[f] = fill
+					if f == 3 {
+						emit(Case{Encrypt: false, Password: names[3], User: names[0], Host: names[1], App: names[2]})
+					} else {
+						emit(Case{Encrypt: true, KeyBits: 1024, Nonce: 16, Password: "secret-password", User: names[0], Host: names[1], App: names[2]})
+					}
+					h.Section("login-record-multibyte", 1)
+				}
+			}
+		}
+	}
 	h.Done()
 }
